@@ -193,9 +193,11 @@ def make_constraint(b: Built, c):
     if cls == "IndicatorTarget":
         return ps.IndicatorTarget(indicator=b.inds[c["ind"] - 1], value=c["value"], **kw)
     if cls == "IndicatorBounds":
-        return ps.IndicatorBounds(indicator=b.inds[c["ind"] - 1],
-                                  lower_bound=c["lower"][0] if c["lower"] else None,
-                                  upper_bound=c["upper"][0] if c["upper"] else None, **kw)
+        if c["lower"]:
+            kw["lower_bound"] = c["lower"][0]
+        if c["upper"]:
+            kw["upper_bound"] = c["upper"][0]
+        return ps.IndicatorBounds(indicator=b.inds[c["ind"] - 1], **kw)
     raise ValueError(cls)
 
 
